@@ -1,4 +1,5 @@
 #!/bin/sh
+export VERIF_EVIDENCE_DIR=/tmp/verif-changed-tree-evidence   # evidence of runs against a changed tree must not land in /verif/evidence
 # For every defect recorded as fixed in known_findings.json: take the fix out of /repo's working tree again
 # (reverse patch of the fix: commit, non-test files only), run the property's quick check, expect it to
 # report the violation again (exit 1), and restore the tree. "A fixed entry suppresses nothing."
